@@ -59,7 +59,8 @@ OnCfg ==
   \* nothing may be pending from the previous scenario
   /\ \/ l = 1
      \/ s.queue = <<>> /\ s.sendq = <<>> /\ s.pc \in {"idle", "ended", "done", "aborted"}
-  /\ s' = Init0(Ev.mode, Ev.framing, Ev.queue, Ev.max_timeouts, Ev.retry[1], Ev.retry[2], Ev.txid0)
+  /\ s' = [Init0(Ev.mode, Ev.framing, Ev.queue, Ev.max_timeouts, Ev.retry[1], Ev.retry[2], Ev.txid0)
+             EXCEPT !.portOk = IF "port" \in DOMAIN Ev THEN Ev.port ELSE TRUE]
   /\ out' = NoOut /\ Consume
 
 OnSubmit ==
@@ -84,9 +85,11 @@ OnWerr == Is("werr") /\ WriteBreaks /\ Consume
 OnTick == Is("tick") /\ Tick(Ev.d) /\ Consume
 OnConn == Is("connector") /\ (IF Ev.race THEN ConnectorResultRacing(Ev.res) ELSE ConnectorResult(Ev.res)) /\ Consume
 
+OnPort == Is("port") /\ PortSet(Ev.ok) /\ Consume
+
 OnQuiet == Is("q") /\ Quiescent /\ UNCHANGED <<s, out>> /\ Consume
 
-TraceNext == OnTask \/ OnCfg \/ OnSubmit \/ OnCmd \/ OnPeer \/ OnEof \/ OnWerr \/ OnTick \/ OnConn \/ OnQuiet
+TraceNext == OnTask \/ OnCfg \/ OnSubmit \/ OnCmd \/ OnPeer \/ OnEof \/ OnWerr \/ OnTick \/ OnConn \/ OnPort \/ OnQuiet
 
 TraceSpec == TraceInit /\ [][TraceNext]_tvars
 
